@@ -157,6 +157,7 @@ void SimSslSocket::connectToHost(const QString &hostName, quint16 port, OpenMode
 {
     if (state() != UnconnectedState) {
         // Qt warns and ignores
+        directTlsRequested = false;
         return;
     }
     m_in.clear();
